@@ -86,6 +86,8 @@ type QCfg struct {
 	Inputs      []controller.Input
 	Outputs     []controller.Output
 	Concurrency uint
+	// ConcurrencySet forces the Concurrency value to be passed even when it is 0 (invalid on purpose).
+	ConcurrencySet bool
 	Busy        []int
 	Late        bool
 	// Outcome by (kind,"id") invocation count: "ok" | "err" | "panic" | "requeue:<ms>" | "requeueerr:<ms>" | "skip"
@@ -514,7 +516,7 @@ func (p *QProbe) Settings() controller.QSettings {
 		ShutdownHook: func() { p.Shutdowns.Add(1) },
 	}
 
-	if p.cfg.Concurrency > 0 {
+	if p.cfg.Concurrency > 0 || p.cfg.ConcurrencySet {
 		s.Concurrency = optional.Some(p.cfg.Concurrency)
 	}
 
